@@ -190,6 +190,15 @@ static void topic_structure() {
     all_strings("topic", wide, g_thorough ? 7 : 5);
     const std::vector<bytes> misc = { "#", "+", "/", "$", " ", "a" };
     all_strings("topic", misc, g_thorough ? 6 : 4);
+    // characters whose code point, cut down to 8 bits, is one of the topic specials ('/' 2F, '+' 2B, '#' 23, '$' 24):
+    // a validator that keeps "the previous character" in a narrower type confuses them with the real thing
+    const char* alias[] = { "\xC4\xAF" /* U+012F */, "\xC4\xAB" /* U+012B */, "\xC4\xA3" /* U+0123 */, "\xC4\xA4" /* U+0124 */,
+                            "\xE2\x80\xAF" /* U+202F */, "\xF0\x9F\x98\xAF" /* U+1F62F */ };
+    for (const char* a : alias) {
+        const std::vector<bytes> al = { "#", "+", "/", a };
+        all_strings("topic", al, g_thorough ? 6 : 5);
+        all_strings("share", al, g_thorough ? 5 : 4, "$share/g/");
+    }
 }
 
 static void share_forms() {
